@@ -1483,6 +1483,11 @@ func genInput(r *lib.Rng, edge bool) Input {
 		}
 		if len(single) > 0 && r.Chance(1, 3) {
 			in.JoinNested = lib.Pick(r, single)
+			if in.JoinNested == in.Nested {
+				// the same nested relation joined AND preloaded: by design the join wins and the
+				// preload (with its conditions) is skipped - not a form with one meaning
+				in.JoinNested = ""
+			}
 		}
 	}
 	if in.Mode == "assoc" {
